@@ -662,6 +662,14 @@ func (c *EvalCtx) call(n *Node) Val {
 			return tTrue
 		case "codegen.PrimitiveType", "*codegen.StructType":
 			return tFalse
+		case "*codegen.NamedType", "codegen.NamedType":
+			// nillable iff the declared type is; scenarios use declarations without a type
+			d := c.sel(n, iv.V, "Decl")
+			if r, ok := d.(Ref); ok && !r.isNil() {
+				if ti, ok := c.sel(n, d, "Type").(Iface); ok && ti.Dyn == nil {
+					return tFalse
+				}
+			}
 		}
 		specErr(n, "is_nillable: unknown type shape %s", iv.Dyn)
 	case "contains":
